@@ -508,8 +508,12 @@ def qh : QN := ⟨"urn:t", "h"⟩
 def qs : QN := ⟨"urn:t", "s"⟩
 
 /-- a context for a model whose elements are references to global declarations of type 0 -/
-def ctxOf (v11 : Bool) (n : Nat) (p : Particle) (infos : List (Nat × EInfo)) : Ctx :=
-  mkCtx v11 n p.flatten infos [qa, qb, qh, qs]
+def ctxOf (v11 : Bool) (n : Nat) (p : Particle) (infos : List (Nat × EInfo)) (fx : Fixes := {}) : Ctx :=
+  mkCtx v11 n p.flatten infos [qa, qb, qh, qs] fx
+
+/-- finite case analysis over the sixteen combinations of the proposed repairs -/
+macro "all_fx " fx:ident : tactic =>
+  `(tactic| (obtain ⟨a, b, c, d⟩ := $fx; cases a <;> cases b <;> cases c <;> cases d <;> decide))
 
 /-- `(a, a*)+` -/
 def pMissed : Particle :=
@@ -543,10 +547,10 @@ theorem upa_of_isCert (sigma : List QN) (v11 : Bool) (p : Particle) (fuel : Nat)
 
 /-- The pinned `check_model` refuses `(b, (b{1,2}){1,2}, a)*` (UPA error) although it is
     deterministic: the first `b` of an iteration belongs to particle 1, every further `b` to particle 3. -/
-theorem checkModel_false_alarm_counterexample :
-    (ctxOf false 5 pAlarm iAlarm).accepts pAlarm = false ∧ UPA [qa, qb] false pAlarm ∧
+theorem checkModel_false_alarm_counterexample (fx : Fixes) :
+    (ctxOf false 5 pAlarm iAlarm fx).accepts pAlarm = false ∧ UPA [qa, qb] false pAlarm ∧
       EDC [(1, [(qb, 0)]), (3, [(qb, 0)]), (4, [(qa, 0)])] pAlarm := by
-  refine ⟨by decide, upa_of_isCert _ _ _ 40 (by decide), (edc_spec _ _).mp (by decide)⟩
+  refine ⟨by all_fx fx, upa_of_isCert _ _ _ 40 (by decide), (edc_spec _ _).mp (by decide)⟩
 
 /-- `(a | a){0,0}` -/
 def pRoot0 : Particle :=
@@ -617,10 +621,10 @@ def iTrans : List (Nat × EInfo) :=
 /-- XSD 1.0 `is_overlap` looks at the *direct* substitution-group head only: a head and an indirect
     member of its substitution group are accepted side by side in a choice although both match the
     indirect member's name (XSD 1.1, which walks `iter_substitutes`, refuses the model). -/
-theorem checkModel_indirect_member_missed_counterexample :
-    (ctxOf false 3 pTrans iTrans).accepts pTrans = true ∧ (ctxOf true 3 pTrans iTrans).accepts pTrans = false ∧
+theorem checkModel_indirect_member_missed_counterexample (fx : Fixes) :
+    (ctxOf false 3 pTrans iTrans fx).accepts pTrans = true ∧ (ctxOf true 3 pTrans iTrans fx).accepts pTrans = false ∧
       ¬ UPA [qh, qd, qs] false pTrans := by
-  refine ⟨by decide, by decide, ?_⟩
+  refine ⟨by all_fx fx, by all_fx fx, ?_⟩
   exact upa_witness_sound _ false pTrans [] (qd, 1) (qd, 2) (by decide)
 
 /-- `(G, G)` with the named group `G = (a?)` referenced twice.  As `check_model` iterates it: each
@@ -672,10 +676,10 @@ def pSeqCh : Particle :=
 /-- **Boundary, one level of nesting (sequence of choices, every group `{1,1}`)**: `(a, (c? | b), b)` is
     accepted — a required particle before the choice makes `distinguishable_paths` ignore that the choice
     is emptiable — although after `a` the child `b` belongs to the `b` of the choice or to the last `b`. -/
-theorem checkModel_seq_of_choices_counterexample (v11 : Bool) :
-    (ctxOf v11 6 pSeqCh [ei 1 qa, ei 3 qc, ei 4 qb, ei 5 qb]).accepts pSeqCh = true ∧
+theorem checkModel_seq_of_choices_counterexample (v11 : Bool) (fx : Fixes) :
+    (ctxOf v11 6 pSeqCh [ei 1 qa, ei 3 qc, ei 4 qb, ei 5 qb] fx).accepts pSeqCh = true ∧
       ¬ UPA [qa, qb, qc] v11 pSeqCh := by
-  refine ⟨by cases v11 <;> decide, ?_⟩
+  refine ⟨by cases v11 <;> all_fx fx, ?_⟩
   apply upa_witness_sound [qa, qb, qc] v11 pSeqCh [(qa, 1)] (qb, 4) (qb, 5)
   cases v11 <;> decide
 
@@ -687,9 +691,9 @@ def pChSeq : Particle :=
     accepted because `paths` is a dict keyed by name (models.py:179): when the last `a` is visited the first
     `a` has been replaced by the second one, which is distinguishable; the first and the last `a` both
     start the model. -/
-theorem checkModel_choice_of_seqs_counterexample (v11 : Bool) :
-    (ctxOf v11 5 pChSeq [ei 2 qa, ei 3 qa, ei 4 qa]).accepts pChSeq = true ∧ ¬ UPA [qa] v11 pChSeq := by
-  refine ⟨by cases v11 <;> decide, ?_⟩
+theorem checkModel_choice_of_seqs_counterexample (v11 : Bool) (fx : Fixes) :
+    (ctxOf v11 5 pChSeq [ei 2 qa, ei 3 qa, ei 4 qa] fx).accepts pChSeq = true ∧ ¬ UPA [qa] v11 pChSeq := by
+  refine ⟨by cases v11 <;> all_fx fx, ?_⟩
   apply upa_witness_sound [qa] v11 pChSeq [] (qa, 2) (qa, 4)
   cases v11 <;> decide
 
@@ -700,9 +704,58 @@ def pDeep : Particle :=
 
 /-- **Refusals are not sound even without any repetition, from depth 3 on**: `(((a)?, c), a)` is refused
     (UPA error) although the required `c` separates the two `a`. -/
-theorem checkModel_false_alarm_norepeat_counterexample :
-    (ctxOf false 6 pDeep [ei 3 qa, ei 4 qc, ei 5 qa]).accepts pDeep = false ∧ UPA [qa, qc] false pDeep := by
-  refine ⟨by decide, upa_of_isCert _ _ _ 20 (by decide)⟩
+theorem checkModel_false_alarm_norepeat_counterexample (fx : Fixes) :
+    (ctxOf false 6 pDeep [ei 3 qa, ei 4 qc, ei 5 qa] fx).accepts pDeep = false ∧ UPA [qa, qc] false pDeep := by
+  refine ⟨by all_fx fx, upa_of_isCert _ _ _ 20 (by decide)⟩
+
+/-! ### the proposed repairs (notes/fixes/C15-*.patch) on the witnesses
+
+  The counter-examples above marked "pinned" (`ctxOf … {}`) describe the code as it is.  With the repair in
+  the tree (`Ctx.fx`, detected by the harness on the real code) the port refuses them — rightly, they
+  violate UPA / EDC.  The other counter-examples are stated for every combination of the repairs: no
+  proposed repair touches them. -/
+
+/-- `(a, a, a*)*` -/
+def pSeqRep3 : Particle := .group 0 .seq 0 none (.cons (el 1 qa) (.cons (el 2 qa) (.cons (el 3 qa 0 none) .nil)))
+
+/-- the models whose defect a repair removes are refused once the repair is in the tree -/
+theorem checkModel_repairs_effective (v11 : Bool) (fx : Fixes) :
+    (fx.repSeq = true → (ctxOf v11 3 pMissed iMissed fx).accepts pMissed = false ∧
+        (ctxOf v11 3 pSeqRep [ei 1 qa, ei 2 qa] fx).accepts pSeqRep = false) ∧
+    (fx.shared = true → (ctxOf v11 5 pSharedM [(3, { name := qa, ty := 0 })] fx).accepts pSharedM = false) ∧
+    (fx.edc10 = true → (ctxOf v11 3 pEdc iEdc fx).accepts pEdc = false) := by
+  obtain ⟨a, b, c, d⟩ := fx
+  cases v11 <;> cases a <;> cases b <;> cases c <;> cases d <;> decide
+
+/-- **What the repeated-sequence repair leaves open on flat sequences**: `(a, a, a*)*` is accepted by every
+    variant although after `a a` the next `a` belongs to the third particle or, in a new iteration, to the
+    first one — `paths` keeps only the last particle of a name, the third `a` is never compared with the
+    first.  (On the patched tree no deviation was observed on repeated flat sequences in which no name occurs
+    more than twice, and no false alarm at all; see `checkModel_flat_seq_repeated_refusal_sound_patched` for
+    the proved direction.) -/
+theorem checkModel_flat_seq_repeated_patched_counterexample (v11 : Bool) (fx : Fixes) :
+    (ctxOf v11 4 pSeqRep3 [ei 1 qa, ei 2 qa, ei 3 qa] fx).accepts pSeqRep3 = true ∧ ¬ UPA [qa] v11 pSeqRep3 := by
+  refine ⟨by cases v11 <;> all_fx fx, ?_⟩
+  apply upa_witness_sound [qa] v11 pSeqRep3 [(qa, 1), (qa, 2)] (qa, 3) (qa, 1)
+  cases v11 <;> decide
+
+def qs2 : QN := ⟨"urn:t", "s2"⟩
+/-- XSD 1.0 `(h:string | s)` with a LOCAL `h` of another type and `s` a member of the substitution group of the
+    global `h` -/
+def pLocalHead : Particle :=
+  .group 0 .choice 1 (some 1) (.cons (.leaf (.elem 1 [qh]) 1 (some 1)) (.cons (.leaf (.elem 2 [qs, qs2]) 1 (some 1)) .nil))
+def iLocalHead : List (Nat × EInfo) :=
+  [(1, { name := qh, ty := 1, direct := [qq, qs], headOk := false }),
+   (2, { name := qs, ty := 0, sgHead := some qh, direct := [qs2], subs := [(qs2, 0)] })]
+
+/-- XSD 1.0 `is_overlap` compares `other.substitution_group` with `self.name` whatever `self` is: a local
+    element merely *named* like a substitution-group head is treated as overlapping with the members of the
+    group, so `(h:string | s)` is refused although deterministic and consistent.  With the head guard of
+    notes/fixes/C15-repeated-sequence.patch (`fx.head10`) it is accepted. -/
+theorem checkModel_local_head_false_alarm_counterexample (fx : Fixes) :
+    (ctxOf false 3 pLocalHead iLocalHead fx).accepts pLocalHead = fx.head10 ∧
+      UPA [qh, qs, qs2] false pLocalHead ∧ EDC [(1, [(qh, 1)]), (2, [(qs, 0), (qs2, 0)])] pLocalHead := by
+  refine ⟨by all_fx fx, upa_of_isCert _ _ _ 20 (by decide), (edc_spec _ _).mp (by decide)⟩
 
 /-! ### non-vacuity -/
 
